@@ -574,9 +574,45 @@ func runActiveBound(c *Ctx) {
 		}
 		return true
 	})
+	// the record may also carry len(<slice of opened streams>) directly
+	var announcedSlice types.Object
 	if announced == nil {
-		c.Unknown("active-bound/announced", send.Pos(), "cannot identify the variable written into the DataStreams record")
+		InspectNoLits(send.Body, func(m ast.Node) bool {
+			if cl, ok := m.(*ast.CompositeLit); ok {
+				if t := sinfo.TypeOf(cl); t != nil && strings.HasSuffix(t.String(), "transfer.DataStreams") {
+					for _, el := range cl.Elts {
+						if kv, ok := el.(*ast.KeyValueExpr); ok {
+							if k, ok := kv.Key.(*ast.Ident); ok && k.Name == "Count" {
+								if call, ok := ast.Unparen(StripConv(sinfo, kv.Value)).(*ast.CallExpr); ok && len(call.Args) == 1 {
+									if id, ok := ast.Unparen(call.Fun).(*ast.Ident); ok && id.Name == "len" {
+										announcedSlice = ObjOf(sinfo, call.Args[0])
+									}
+								}
+							}
+						}
+					}
+				}
+			}
+			return true
+		})
+	}
+	if announced == nil && announcedSlice == nil {
+		c.Unknown("active-bound/announced", send.Pos(), "cannot identify the value written into the DataStreams record")
 		return
+	}
+	lenOfAnnounced := func(h *FuncInfo, e ast.Expr) bool {
+		call, ok := ast.Unparen(StripConv(h.Info(), e)).(*ast.CallExpr)
+		if !ok || len(call.Args) != 1 {
+			return false
+		}
+		id, ok := ast.Unparen(call.Fun).(*ast.Ident)
+		return ok && id.Name == "len" && announcedSlice != nil && ObjOf(h.Info(), call.Args[0]) == announcedSlice
+	}
+	announcedName := ""
+	if announced != nil {
+		announcedName = announced.Name()
+	} else {
+		announcedName = "len(" + announcedSlice.Name() + ")"
 	}
 	n := 0
 	for _, f := range allKids(send) {
@@ -616,8 +652,21 @@ func runActiveBound(c *Ctx) {
 			n++
 			key := fmt.Sprintf("active-bound/%s#%d", f.Name, n)
 			// the bound is the announced variable, or one of the two is a plain copy of the other
-			same := ObjOf(info, be.Y) == announced
-			if bo := ObjOf(info, be.Y); bo != nil && !same {
+			same := announced != nil && ObjOf(info, be.Y) == announced
+			if announced == nil {
+				// announced as len(S): the bound is len(S) itself or a variable with a definition len(S)
+				same = lenOfAnnounced(f, be.Y)
+				if bv, ok := ObjOf(info, be.Y).(*types.Var); ok && !same {
+					if own := owningFunc(f, bv); own != nil {
+						for _, d := range allDefs(own, bv) {
+							if lenOfAnnounced(own, d) {
+								same = true
+							}
+						}
+					}
+				}
+			}
+			if bo := ObjOf(info, be.Y); bo != nil && !same && announced != nil {
 				ao, _ := announced.(*types.Var)
 				if ao != nil {
 					if own := owningFunc(send, ao); own != nil {
@@ -639,7 +688,7 @@ func runActiveBound(c *Ctx) {
 				}
 			}
 			c.Check(same, key, fs.Pos(), "files are activated up to the number of streams that were announced",
-				"the sender activates files while `"+types.ExprString(fs.Cond)+"`, a bound that is not the number of data streams it opened and announced (`"+announced.Name()+"`): against a peer that allowed fewer streams than configured it keeps more files open than it announced streams, "+
+				"the sender activates files while `"+types.ExprString(fs.Cond)+"`, a bound that is not the number of data streams it opened and announced (`"+announcedName+"`): against a peer that allowed fewer streams than configured it keeps more files open than it announced streams, "+
 					"the receiver refuses the FileBegin beyond one open file per announced stream, and both sides fail")
 			return true
 		})
